@@ -11,7 +11,7 @@ PROP = {
             "disable in a nested block / disable at top level; with 1-3 codes or without a list); every code enabled; "
             "distinct = FNV of the program text with the comment; non-trivial = D(P) has >= 3 diagnostics and the comment had something to act on "
             "(>= 1 diagnostic hidden in scope, or >= 1 diagnostic with a listed code kept outside the scope)",
-    "min_nontrivial": {"quick": 25000, "thorough": 600000},
+    "min_nontrivial": {"quick": 25000, "thorough": 800000},
     "max_secs": {"quick": 50, "thorough": 900},
     "require_clauses": ["hide:disable-next-line", "hide:disable-line", "hide:disable", "keep-outside:disable-next-line",
                         "keep-outside:disable-line", "keep-outside:disable", "other-codes-kept"],
